@@ -53,6 +53,16 @@ type c10Case struct {
 	AckSize    int `json:"ack_only_size,omitempty"`
 	AckEveryMs int `json:"ack_only_every_ms,omitempty"`
 	WireMs     int `json:"wire_ms,omitempty"`
+	// kind "spelling": a grid handshake in which CongestionConfig.Type / BBRProfile are given to the
+	// REAL config fill functions (client verifyAndFill via NewClient, server fill via NewServer) in the
+	// spelling a library user typed - both are accepted case-insensitively, "" is the default - and
+	// independently on the two sides; CC is unused, what each side must run is the canonical reading
+	// of its own spelling (c10Canon). Added after the independently seeded change C10-12 (the
+	// normalized type was written back only in the BBR branch, so "Reno"/"RENO" validated but ran BBR).
+	CType string `json:"client_cc_type,omitempty"`
+	CProf string `json:"client_bbr_profile,omitempty"`
+	SType string `json:"server_cc_type,omitempty"`
+	SProf string `json:"server_bbr_profile,omitempty"`
 }
 
 var (
@@ -122,6 +132,20 @@ func c10SplitCC(cc string) (typ, profile string) {
 		return "reno", ""
 	}
 	return "bbr", strings.TrimPrefix(cc, "bbr:")
+}
+
+// c10Canon is the reference reading of a configured congestion type / BBR profile as typed: both
+// are case-insensitive, the empty type is bbr and the empty profile is standard; the result is in
+// the "reno" / "bbr:<profile>" form of c10Case.CC. Added after the independently seeded change
+// C10-12 (a case-variant spelling of reno was accepted by validation but ran BBR).
+func c10Canon(typ, prof string) string {
+	if strings.ToLower(typ) == "reno" {
+		return "reno"
+	}
+	if prof == "" {
+		prof = "standard"
+	}
+	return "bbr:" + strings.ToLower(prof)
 }
 
 // expected controller when no fixed rate applies
@@ -224,17 +248,23 @@ func c10Wire(e *vsched.Exec, side string, cc congestion.CongestionControl, repor
 func c10Run(c *c10Case) string {
 	o := vsched.RunDefault(vsched.Options{}, func(e *vsched.Exec) {
 		typ, prof := c10SplitCC(c.CC)
+		// what each side is configured with as typed, and what that means (ccS / ccC)
+		sTyp, sProf, ccS, ccC := typ, prof, c.CC, c.CC
+		if c.Kind == "spelling" {
+			typ, prof, sTyp, sProf = c.CType, c.CProf, c.SType, c.SProf
+			ccS, ccC = c10Canon(sTyp, sProf), c10Canon(typ, prof)
+		}
 		r := newRig(e, rigOpts{Mutate: func(cfg *Config) {
 			cfg.BandwidthConfig = BandwidthConfig{MaxTx: c.STx, MaxRx: c.SRx}
 			cfg.IgnoreClientBandwidth = c.Ignore
-			cfg.CongestionConfig = CongestionConfig{Type: typ, BBRProfile: prof}
+			cfg.CongestionConfig = CongestionConfig{Type: sTyp, BBRProfile: sProf}
 			cfg.DisableUDP = c.NoUDP
 		}})
 		if r.srv == nil {
 			return
 		}
 		switch c.Kind {
-		case "grid":
+		case "grid", "spelling":
 			f := &c10Factory{}
 			cl, info, err := client.NewClient(&client.Config{
 				ConnFactory: f, ServerAddr: r.pc.LocalAddr(), Auth: "good",
@@ -249,8 +279,8 @@ func c10Run(c *c10Case) string {
 			sconn := cconn.Peer()
 			wantS := c10RefServer(c.CRx, c.STx, c.Ignore)
 			wantC := c10RefClient(c.SRx, c.Ignore, c.CTx)
-			c10Check(e, "server", c10Inspect(sconn), wantS, c.CC)
-			c10Check(e, "client", c10Inspect(cconn), wantC, c.CC)
+			c10Check(e, "server", c10Inspect(sconn), wantS, ccS)
+			c10Check(e, "client", c10Inspect(cconn), wantC, ccC)
 			if info.Tx != wantC {
 				e.Fail("client HandshakeInfo.Tx=%d, enforced rate is %d", info.Tx, wantC)
 			}
@@ -467,7 +497,11 @@ func c10Enumerate(sh *evidence.Shard) {
 		}
 		p.Evaluations++
 		clause := c10Run(&c)
-		p.Class(c.Kind, c.CTx, c.CRx, c.STx, c.SRx, c.Ignore, c.Hdr, c.NoUDP, clause == "")
+		if c.Kind == "spelling" {
+			p.Class(c.Kind, c.CTx, c.CRx, c.STx, c.SRx, c.Ignore, c.CType, c.CProf, c.SType, c.SProf, clause == "")
+		} else {
+			p.Class(c.Kind, c.CTx, c.CRx, c.STx, c.SRx, c.Ignore, c.Hdr, c.NoUDP, clause == "")
+		}
 		if p.Evaluations%997 == 5 {
 			p.Sample(c)
 		}
@@ -476,6 +510,9 @@ func c10Enumerate(sh *evidence.Shard) {
 			sig := fmt.Sprintf("%s/%s/ctx=%d,crx=%d,stx=%d,srx=%d,ignore=%v,cc=%s,hdr=%q,noudp=%v", p.Name, strings.SplitN(clause, ";", 2)[0], c.CTx, c.CRx, c.STx, c.SRx, c.Ignore, c.CC, c.Hdr, c.NoUDP)
 			if c.Kind == "wire" {
 				sig = fmt.Sprintf("%s/%s/ctx=%d,crx=%d,stx=%d,srx=%d,ack_only=%dB/%dms", p.Name, strings.SplitN(strings.SplitN(clause, ",", 2)[0], ";", 2)[0], c.CTx, c.CRx, c.STx, c.SRx, c.AckSize, c.AckEveryMs)
+			}
+			if c.Kind == "spelling" {
+				sig = fmt.Sprintf("%s/%s/ctx=%d,crx=%d,stx=%d,srx=%d,ignore=%v,client=%q+%q,server=%q+%q", p.Name, strings.SplitN(clause, ";", 2)[0], c.CTx, c.CRx, c.STx, c.SRx, c.Ignore, c.CType, c.CProf, c.SType, c.SProf)
 			}
 			sh.Violate(p.Name, sig, clause, &cc)
 		}
@@ -542,6 +579,43 @@ func c10Enumerate(sh *evidence.Shard) {
 				for _, stx := range wireCaps {
 					for _, a := range wireAcks {
 						if !run(p4, c10Case{Kind: "wire", CTx: ctx, CRx: crx, STx: stx, SRx: srx, CC: "bbr:standard", AckSize: a[0], AckEveryMs: a[1], WireMs: wireMs}) {
+							return
+						}
+					}
+				}
+			}
+		}
+	}
+	// the configured congestion type / BBR profile in the spellings a library user may type, through
+	// the real config fill functions of both sides, for every handshake outcome that ends in "runs
+	// the configured congestion controller" on at least one side (and one that ends in two fixed
+	// rates); added after the independently seeded change C10-12 (the normalized type was stored only
+	// in the BBR branch: "Reno" / "RENO" passed validation and the sender ran BBR)
+	p5 := sh.Part("congestion-type-spellings", "enum")
+	spellTypes := []string{"", "bbr", "BBR", "Bbr", "reno", "Reno", "RENO"}
+	spellProfs := []string{"", "Standard", "AGGRESSIVE", "conservative"}
+	if env.Thorough() {
+		spellTypes = append(spellTypes, "bBR", "rENO", "ReNo")
+		spellProfs = []string{"", "standard", "Standard", "STANDARD", "aggressive", "Aggressive", "AGGRESSIVE", "conservative", "Conservative", "CONSERVATIVE"}
+	}
+	// client MaxTx, client MaxRx, server MaxTx, server MaxRx, ignore-client-bandwidth
+	spellOutcomes := []c10Case{
+		{CTx: 0, CRx: 0},          // nothing declared: both sides run the configured controller
+		{CTx: 1000000000, CRx: 0}, // the client declares 0: the server runs the configured controller
+		{CTx: 0, CRx: 1000000000}, // the client has no usable limit: it runs the configured controller
+		{CTx: 1000000000, CRx: 1000000000, STx: 65537, SRx: 65537, Ignore: true}, // the server answers auto: both sides
+		{CTx: 1000000000, CRx: 1000000000},                                       // two fixed rates: the configured type must not matter
+	}
+	p5.Alphabet = map[string]any{"CongestionConfig.Type as typed (client x server, independently)": spellTypes, "CongestionConfig.BBRProfile as typed (client x server, independently)": spellProfs,
+		"handshake outcomes (client MaxTx/MaxRx, server MaxTx/MaxRx, ignore)": spellOutcomes,
+		"oracle": "each side without a fixed rate runs the controller its own configuration names, read case-insensitively (reno = quic-go's own sender, no SetCongestionControl; bbr / empty = BBR with the profile named, empty = standard)"}
+	for _, o := range spellOutcomes {
+		for _, ct := range spellTypes {
+			for _, cp := range spellProfs {
+				for _, st := range spellTypes {
+					for _, sp := range spellProfs {
+						o.Kind, o.CType, o.CProf, o.SType, o.SProf = "spelling", ct, cp, st, sp
+						if !run(p5, o) {
 							return
 						}
 					}
